@@ -48,9 +48,10 @@ package ecdsa
 
 // Ethereum export (C16): 65 bytes r || s || v with s normalised to the lower half of the scalar field (the
 // signature object is updated to the equivalent low-s signature (-R, -s) when s was high).
-//@ axiom forall(x, integer, s_overhalf(x) ==> !s_overhalf(s_neg(x)))
+//@ rawaxiom[lows] (forall ((x Int)) (! (=> (s_overhalf x) (not (s_overhalf (s_neg x)))) :pattern ((s_overhalf (s_neg x)))))
 //@ func (Signature).SigEthereum
 //@   nopanic[C05,C16]
+//@   use lows
 //@   requires sig.R != nil && sig.S != nil && typeis(sig.R, *curve.Secp256k1Point) && typeis(sig.S, *curve.Secp256k1Scalar)
 // (a point object and a scalar object are distinct objects; the untyped reference model needs it said)
 //@   requires refof(sig.R) != refof(sig.S)
